@@ -897,12 +897,12 @@ class OrderKind(AbsInt):
             if isinstance(v, Tup) and len(v.elems) == 1:
                 e = v.elems[0]
                 # [row]: a one-row table; an unlabelled array-like row is positional
-                v = ('mat', ROWS, ANY if (isinstance(e, tuple) and e and e[0] == 'container') else self.otag(e))
+                v = ('mat', ROWS, ('cols',) if (isinstance(e, tuple) and e and e[0] == 'container') else self.otag(e))
             if isinstance(v, tuple) and v and v[0] == 'mat':
                 rt, ct = v[1], v[2]
             elif isinstance(v, tuple) and v and v[0] == 'container':
-                # an array-like parameter: positional columns (documented: training order)
-                rt, ct = ROWS, ANY
+                # an array-like parameter: positional columns, documented to be in training order
+                rt, ct = ROWS, ('cols',)
                 if cols is None and idx is None:
                     return v
             elif isinstance(v, tuple) and v and v[0] == 'dict':
